@@ -7,7 +7,7 @@ of parts to ground with their offsets, and the trailer.  A program one side reje
 import re, json
 import lang
 
-HEADS = ('norm', 'disj', 'choice', 'cons')
+HEADS = ('norm', 'disj', 'choice', 'cons', 'tel')
 
 
 def in_fragment(rules):
@@ -17,7 +17,7 @@ def in_fragment(rules):
         for s, b in r['body']:
             if b[0] == 'kw' and b[1] not in ('initial', 'final'):
                 return False
-            if b[0] not in ('patom', 'fatom', 'iatom', 'kw'):
+            if b[0] not in ('patom', 'fatom', 'iatom', 'kw', 'tel', 'del', 'tels'):
                 return False
         names = [r['head'][1]] if r['head'][0] == 'norm' else (r['head'][1] if r['head'][0] in ('disj', 'choice') else [])
         names += [b[1] for s, b in r['body'] if b[0] in ('patom', 'fatom', 'iatom')]
@@ -51,6 +51,8 @@ def model_line(rules, ids):
             hd = 'n %d %d' % (ids[h[1]], h[2])
         elif h[0] in ('disj', 'choice'):
             hd = '%s %d %s' % (h[0][0], len(h[1]), ' '.join(str(ids[a]) for a in h[1]))
+        elif h[0] == 'tel':
+            hd = 't'
         else:
             hd = 'x'
         body = []
@@ -61,6 +63,8 @@ def model_line(rules, ids):
                 body.append('%s at %d 0 %d' % (s, ids[b[1]], b[2]))
             elif b[0] == 'iatom':
                 body.append('%s in %d' % (s, ids[b[1]]))
+            elif b[0] in ('tel', 'del', 'tels'):
+                body.append('%s tl' % s)
             else:
                 body.append('%s %s' % (s, 'kI' if b[1] == 'initial' else 'kF'))
         toks.append('%s %s %d %s' % (part, hd, len(body), ' '.join(body)))
@@ -100,12 +104,39 @@ def canon_atom(sign, name, arg, ids):
     return '?' + sign + name + '(' + arg + ')'
 
 
+THEORY = re.compile(r'^(not not |not )?&(tel|del)\(__t\) \{.*\}$')
+
+
 def canon_lit(txt, ids):
+    mt = THEORY.match(txt.strip())
+    if mt:
+        return {'not not ': 'm', 'not ': 'n', None: 'p'}[mt.group(1)] + 'T'
     m = LIT.match(txt.strip())
     if not m:
         return '?' + txt
     s = {'not not ': 'm', 'not ': 'n', None: 'p'}[m.group(1)]
     return s + canon_atom(m.group(2), m.group(3), m.group(4), ids)
+
+
+def split_body(body):
+    """body literals are separated by '; ' - outside the braces of theory atoms"""
+    out, depth, cur = [], 0, ''
+    i = 0
+    while i < len(body):
+        ch = body[i]
+        if ch in '{(':
+            depth += 1
+        elif ch in '})':
+            depth -= 1
+        if depth == 0 and body.startswith('; ', i):
+            out.append(cur)
+            cur = ''
+            i += 2
+            continue
+        cur += ch
+        i += 1
+    out.append(cur)
+    return out
 
 
 def canon_rule(st, ids):
@@ -115,13 +146,15 @@ def canon_rule(st, ids):
         head, body = head.split(' :- ', 1)
     elif head.startswith(':- '):
         head, body = '#false', head[3:]
-    lits = [canon_lit(x, ids) for x in body.split('; ')] if body else []
+    lits = [canon_lit(x, ids) for x in split_body(body)] if body else []
     if head == '#false':
         hd = 'x'
     elif head.startswith('{'):
         hd = 'c ' + ','.join(canon_lit(x, ids)[1:].split('@')[0][1:] if canon_lit(x, ids).endswith('@t+0') else '?' + x for x in head[1:-1].strip().split(';') if x.strip())
     elif '; ' in head:
         hd = 'd ' + ','.join(canon_lit(x, ids)[1:].split('@')[0][1:] if canon_lit(x, ids).endswith('@t+0') else '?' + x for x in head.split('; '))
+    elif re.match(r'^__aux_(\d+)\(__t\)$', head.strip()):
+        hd = 'n A' + re.match(r'^__aux_(\d+)\(__t\)$', head.strip()).group(1)
     else:
         hd = 'n ' + canon_lit(head, ids)[1:]
     return ('%s | %s' % (hd, ' '.join(lits))).strip()
@@ -129,7 +162,7 @@ def canon_rule(st, ids):
 
 def canon_impl(a, ids):
     """-> dict(main=[...], bridge=[...], cons={(root,L): {'tmp': [...], 'perm': [...]}} in order, trailer=[...]) from the statements"""
-    out = {'main': [], 'bridge': [], 'cons': [], 'trailer': [], 'odd': []}
+    out = {'main': [], 'bridge': [], 'cons': [], 'trailer': [], 'odd': [], 'aux': []}
     part = None
     cons = {}
     for st in a['stmts']:
@@ -140,7 +173,9 @@ def canon_impl(a, ids):
             part = m.group(1)
             continue
         mt, mp = re.match(r'^(initial|always|dynamic)_0_(\d+)$', part or ''), re.match(r'^(initial|always|dynamic)_(\d+)$', part or '')
-        if st.startswith('#external') or st == '__initial(__t).':
+        if st.startswith('#external __false(__t)'):
+            out['aux'].append('false-external')
+        elif st.startswith('#external') or st == '__initial(__t).':
             out['trailer'].append('%s | %s' % (part, st))
         elif mt:
             key = (mt.group(1), int(mt.group(2)) + 1)
@@ -154,6 +189,13 @@ def canon_impl(a, ids):
                 cons[key] = {'tmp': [], 'perm': []}
                 out['cons'].append(key)
             cons[key]['perm'].append(canon_rule(st, ids))
+        elif st.startswith('#external __false(__t)'):
+            out['aux'].append('false-external')
+        elif st.startswith('&__tel_head(__t)'):
+            m3 = re.search(r':- __aux_(\d+)\(__t\)\.$', st)
+            out['aux'].append('head %s %s' % (part, m3.group(1) if m3 else '?'))
+        elif re.search(r':- __aux_\d+\(__S\); __false\(__t\)\.$', st):
+            out['aux'].append('domain')
         elif part in ('initial', 'always', 'dynamic'):
             c = canon_rule(st, ids)
             if re.search(r' \| p?X\d', c) or ' | pX' in c:
@@ -169,13 +211,20 @@ def canon_impl(a, ids):
 TRAILER = ['initial | __initial(__t).', 'always | #external __final(__t). [false]']
 
 
-def compare(ctx, progs):
+def texts_of(p, split):
+    """the program as one input text, or cut into two input texts (the second restates its part, as every file must)"""
+    if not split or len(p) < 2:
+        return [lang.prog_txt(p)]
+    return [lang.prog_txt(p[:len(p) // 2]), lang.prog_txt(p[len(p) // 2:])]
+
+
+def compare(ctx, progs, split=False):
     idss = [atom_ids(p) for p in progs]
-    impl = ctx.impl().run([{'cmd': 'transform', 'texts': [lang.prog_txt(p)]} for p in progs], timeout=20)
+    impl = ctx.impl().run([{'cmd': 'transform', 'texts': texts_of(p, split)} for p in progs], timeout=20)
     mod = ctx.model().run([model_line(p, ids) for p, ids in zip(progs, idss)], timeout=20)
     out = []
     for p, ids, a, m in zip(progs, idss, impl, mod):
-        rec = {'program': lang.prog_txt(p), 'status': 'agree', 'lookahead_groups': 0, 'future_predicates': 0}
+        rec = {'program': ' %%%% next input %%%% '.join(texts_of(p, split)) if split else lang.prog_txt(p), 'status': 'agree', 'lookahead_groups': 0, 'future_predicates': 0}
         out.append(rec)
         inv = {v: k for k, v in ids.items()}
         if m is None or m.startswith('error'):
@@ -187,7 +236,7 @@ def compare(ctx, progs):
             else:
                 rec.update(status='differ', what='telingo: %s; the model: %s' % (json.dumps({k: a.get(k) for k in ('status', 'type', 'msg')}), 'rejected' if m == 'rejected' else 'accepted'))
             continue
-        main, bridge, cons, parts = [x.strip() for x in (m + ' ').split(' ## ')]
+        main, bridge, cons, parts, naux = [x.strip() for x in (m + ' ').split(' ## ')]
         ci = canon_impl(a, ids)
         mmain = [x.strip() for x in main.split(' ;; ')] if main else []
         diffs = []
@@ -223,6 +272,9 @@ def compare(ctx, progs):
             wparts.append([rt, name, [int(y) for y in rng.split(',')]])
         if a['parts'] != wparts:
             diffs.append('parts to ground: telingo %s, model %s' % (a['parts'], wparts))
+        heads_ = [x for x in ci['aux'] if x.startswith('head')]
+        if heads_ != ['head always %d' % k for k in range(int(naux))]:
+            diffs.append('auxiliary rules of the head formulas: telingo %s, the model numbers %s head formulas consecutively' % (heads_, naux))
         if ci['trailer'] != TRAILER:
             diffs.append('trailer: %s' % ci['trailer'])
         if diffs:
